@@ -8,6 +8,7 @@ import (
 	"fmt"
 	"os"
 	"testing"
+	"time"
 
 	"github.com/ossrs/go-oryx-lib/amf0"
 	"pgregory.net/rapid"
@@ -390,6 +391,177 @@ func TestGrammarBytes(t *testing.T) {
 	})
 }
 
+// ---------------------------------------------------------------- (d) byte strings next to the grammar
+
+// NCase: a grammar-valid encoding damaged by a few byte edits. Most results are rejected by
+// the decoder (not judged here); the ones it accepts must still satisfy "Size() == bytes consumed".
+type NCase struct {
+	Val   amf0ref.Val   `json:"val"`
+	Edits []NEdit       `json:"edits"`
+	Trail amf0ref.Bytes `json:"trail,omitempty"`
+}
+
+type NEdit struct {
+	Op  string        `json:"op"`  // set | insert | delete | truncate | named-end
+	At  int           `json:"at"`  // position (mod length); for named-end: which 00 00 09 terminator
+	Arg amf0ref.Bytes `json:"arg"` // bytes written / inserted / the key put before the terminator
+	N   int           `json:"n"`   // delete length
+}
+
+func (c NCase) bytes() []byte {
+	b := append([]byte(nil), amf0ref.Encode(c.Val, amf0ref.Lib)...)
+	for _, e := range c.Edits {
+		if len(b) == 0 {
+			break
+		}
+		at := e.At % len(b)
+		switch e.Op {
+		case "set":
+			for i, x := range e.Arg {
+				if at+i < len(b) {
+					b[at+i] = x
+				}
+			}
+		case "insert":
+			b = append(b[:at:at], append(append([]byte(nil), e.Arg...), b[at:]...)...)
+		case "delete":
+			n := min(e.N, len(b)-at)
+			b = append(b[:at:at], b[at+n:]...)
+		case "truncate":
+			b = b[:at]
+		case "named-end":
+			// an object-end marker that follows a non-empty name instead of the empty one
+			var ends []int
+			for i := 0; i+3 <= len(b); i++ {
+				if b[i] == 0 && b[i+1] == 0 && b[i+2] == 9 {
+					ends = append(ends, i)
+				}
+			}
+			if len(ends) == 0 || len(e.Arg) == 0 || len(e.Arg) > 255 {
+				continue
+			}
+			i := ends[e.At%len(ends)]
+			repl := append([]byte{0, byte(len(e.Arg))}, e.Arg...)
+			repl = append(repl, 9)
+			b = append(b[:i:i], append(repl, b[i+3:]...)...)
+		}
+	}
+	return append(b, c.Trail...)
+}
+
+func decodeAny(b []byte) (amf0.Amf0, error) {
+	a, err := amf0.Discovery(b)
+	if err != nil {
+		return nil, err
+	}
+	if err := a.UnmarshalBinary(b); err != nil {
+		return nil, err
+	}
+	return a, nil
+}
+
+// checkNear returns whether the library accepted the string.
+func checkNear(c NCase) (accepted, strict bool, err error) {
+	b := c.bytes()
+	var a amf0.Amf0
+	var derr error
+	if e := ev.WithTimeout(20*time.Second, func() error { a, derr = decodeAny(b); return nil }); e != nil {
+		return false, false, nil // slowness is C07's subject
+	}
+	if derr != nil {
+		return false, false, nil
+	}
+	s := a.Size()
+	if _, n, e := amf0ref.Decode(b, amf0ref.Lib); e == nil {
+		// the strict reference parser accepts it too: it knows how long the value is
+		strict = true
+		if s != n {
+			return true, true, fmt.Errorf("%x: Size() after decoding = %d, the value occupies %d bytes", clip(b), s, n)
+		}
+	}
+	// the bytes consumed are exactly the first Size() bytes: they alone must decode to the same value
+	if s < 1 || s > len(b) {
+		return true, strict, fmt.Errorf("%x: decoded from %d bytes, Size() = %d", clip(b), len(b), s)
+	}
+	a2, e := decodeAny(b[:s])
+	if e != nil {
+		return true, strict, fmt.Errorf("%x: decodes successfully with Size() = %d, but its first %d bytes alone do not decode (%v): the decoder consumed more than Size()", clip(b), s, s, e)
+	}
+	if a2.Size() != s {
+		return true, strict, fmt.Errorf("%x: Size() = %d, decoding just those bytes gives Size() = %d", clip(b), s, a2.Size())
+	}
+	m1, e1 := a.MarshalBinary()
+	m2, e2 := a2.MarshalBinary()
+	if e1 != nil || e2 != nil || !bytes.Equal(m1, m2) {
+		return true, strict, fmt.Errorf("%x: the first Size() = %d bytes decode to a different value than the whole input (a caller advancing by Size() is misaligned)", clip(b), s)
+	}
+	return true, strict, nil
+}
+
+func clip(b []byte) []byte {
+	if len(b) > 48 {
+		return b[:48]
+	}
+	return b
+}
+
+var recNear = ev.New(prop, "near-grammar-bytes",
+	"grammar-valid encodings damaged by 1-3 byte edits (overwrite with arbitrary/marker bytes, insert, delete, truncate, object-end marker moved behind a non-empty name) plus optional trailing bytes; "+
+		"strings the decoder rejects are not judged; for every accepted one Size() must equal the length the strict reference parser finds (when it accepts too) and the first Size() bytes alone must decode to the same value; "+
+		"non-trivial = accepted by the library after at least one edit").
+	Require("accepted")
+
+func genNear(t *rapid.T) NCase {
+	c := NCase{Val: amf0x.Gen(t, amf0x.Opts{MaxDepth: 5, MaxNodes: 16, WireFreedom: true})}
+	n := rapid.IntRange(1, 3).Draw(t, "nedits")
+	for i := 0; i < n; i++ {
+		e := NEdit{Op: rapid.SampledFrom([]string{"set", "set", "insert", "delete", "truncate", "named-end", "named-end"}).Draw(t, "op"), At: rapid.IntRange(0, 400).Draw(t, "at")}
+		switch e.Op {
+		case "set", "insert":
+			if rapid.Bool().Draw(t, "marker") {
+				e.Arg = []byte{byte(rapid.IntRange(0, 0x12).Draw(t, "m"))}
+			} else {
+				e.Arg = rapid.SliceOfN(rapid.Byte(), 1, 4).Draw(t, "arg")
+			}
+		case "delete":
+			e.N = rapid.IntRange(1, 4).Draw(t, "n")
+		case "named-end":
+			e.Arg = rapid.SliceOfN(rapid.Byte(), 1, 3).Draw(t, "key")
+		}
+		c.Edits = append(c.Edits, e)
+	}
+	if rapid.IntRange(0, 2).Draw(t, "trailk") == 0 {
+		c.Trail = rapid.SliceOfN(rapid.Byte(), 1, 8).Draw(t, "trail")
+	}
+	return c
+}
+
+func TestNearGrammarBytes(t *testing.T) {
+	ev.Rapid(t, "near-grammar-bytes", 20000, 6000000, func(t *rapid.T) {
+		c := genNear(t)
+		var acc, strict bool
+		err := ev.Try(func() error {
+			var e error
+			acc, strict, e = checkNear(c)
+			return e
+		})
+		var cl []string
+		if acc {
+			cl = append(cl, "accepted")
+			if !strict {
+				cl = append(cl, "accepted-not-by-reference")
+			}
+		} else {
+			cl = append(cl, "rejected")
+		}
+		recNear.Case(acc, ev.Hash(c), cl, func() any { return fmt.Sprintf("%x", clip(c.bytes())) })
+		if err != nil {
+			p := ev.Fail(prop, "near-grammar-bytes", c, err)
+			t.Fatalf("%v (replay %s)", err, p)
+		}
+	})
+}
+
 func replayers() map[string]ev.Replayer {
 	return map[string]ev.Replayer{
 		"tree": func(raw json.RawMessage) error {
@@ -405,6 +577,14 @@ func replayers() map[string]ev.Replayer {
 				return err
 			}
 			_, _, e := runMachine(c)
+			return e
+		},
+		"near-grammar-bytes": func(raw json.RawMessage) error {
+			var c NCase
+			if err := json.Unmarshal(raw, &c); err != nil {
+				return err
+			}
+			_, _, e := checkNear(c)
 			return e
 		},
 		"grammar-bytes": func(raw json.RawMessage) error {
